@@ -197,13 +197,30 @@ func ReassembleTOAST(chunks []TOASTChunk, valueID uint32, ptr *TOASTPointer) []b
 	return data
 }
 
+// maxDecompressRatio bounds how much either codec can expand its input: a 3-byte
+// pglz tag yields at most 273 bytes, an LZ4 length-extension byte at most 255.
+const maxDecompressRatio = 256
+
+// decompressCap returns the initial capacity of a decompression buffer. rawSize
+// comes from an untrusted TOAST pointer (up to 4 GiB claimed by 18 bytes), so it is
+// only believed up to what srcLen bytes of input can actually produce.
+func decompressCap(rawSize, srcLen int) int {
+	if rawSize < 0 {
+		return 0
+	}
+	if limit := srcLen * maxDecompressRatio; rawSize > limit {
+		return limit
+	}
+	return rawSize
+}
+
 // decompressPGLZ decompresses PostgreSQL's pglz format
 func decompressPGLZ(data []byte, rawSize int) ([]byte, error) {
 	if len(data) < 4 {
 		return nil, fmt.Errorf("data too short")
 	}
 
-	result := make([]byte, 0, rawSize)
+	result := make([]byte, 0, decompressCap(rawSize, len(data)))
 	pos := 0
 
 	for pos < len(data) && len(result) < rawSize {
@@ -256,7 +273,7 @@ func decompressLZ4(data []byte, rawSize int) ([]byte, error) {
 		return nil, fmt.Errorf("data too short")
 	}
 
-	result := make([]byte, 0, rawSize)
+	result := make([]byte, 0, decompressCap(rawSize, len(data)))
 	pos := 0
 
 	for pos < len(data) && len(result) < rawSize {
